@@ -11,7 +11,7 @@ ASSUMPTIONS = ['names are built from non-empty, colon-free components (the form 
                'queries are arbitrary strings over the same alphabet plus stray colons']
 TRUSTED = ['modelled, not verified: str.split/endswith/==, list comprehension order']
 
-COMP = ['a', 'n', 'xn', 'na', 'g', 'xg', 'b', 'an']
+COMP = ['a', 'n', 'xn', 'na', 'g', 'xg', 'b', 'an', 'A', 'Na', 'AN']        # (names are case-sensitive: `A` is not `a`)
 
 
 def render(ns, gr, name):
@@ -194,6 +194,60 @@ def run(ctx):
                              {'names': present, 'q': q, 'via': 'InputTasks, growing'}, {'got': got, 'in': q in it2, 'find': exp})
     run_class_names(ctx)
     run_dependants(ctx)
+    helper_mock_names_probe(ctx)
+
+
+def helper_mock_names_probe(ctx):
+    """names given to the test helpers resolve uniquely or not at all: a mock filed under a short name (`stats`) is the task `stats` — it never
+    stands in for `train:stats` or `eval:stats` because those end alike; a task that needs both is told that its inputs are missing"""
+    from taskchain import Task
+    from taskchain.utils.testing import TestChain
+
+    class TrainStats(Task):
+        class Meta:
+            name = 'stats'
+            task_group = 'train'
+
+        def run(self) -> int:
+            return 1
+
+    class EvalStats(Task):
+        class Meta:
+            name = 'stats'
+            task_group = 'eval'
+
+        def run(self) -> int:
+            return 2
+
+    for order in (['train:stats', 'eval:stats'], ['eval:stats', 'train:stats']):
+        class Report(Task):
+            class Meta:
+                name = 'report'
+                input_tasks = list(order)
+
+            def run(self) -> list:
+                return [self.input_tasks['train:stats'].value, self.input_tasks['eval:stats'].value]
+        case = {'probe': 'TestChain, mock under an ambiguous short name', 'inputs': order, 'mock': 'stats'}
+        ctx.case(case); ctx.count('helper-mock-names')
+        try:
+            tc = TestChain([Report], mock_tasks={'stats': 7})
+            got = tc['report'].value
+            ctx.fail('a mock given under a short name that matches two inputs was bound to one of them (no error)', case, {'value': got})
+        except (ValueError, KeyError):
+            pass
+        try:
+            # an additional mock under the short name is one more task (`stats`): it replaces neither of the two
+            tc = TestChain([Report], mock_tasks={'eval:stats': 20, 'train:stats': 30, 'stats': 10})
+            if tc['report'].value != [30, 20]:
+                ctx.fail('a mock given under a short name replaced a mock given under a full name', case, {'value': tc['report'].value})
+        except Exception as e:      # noqa
+            ctx.fail('mocks under two full names and their common short name are rejected', case, f'{type(e).__name__}: {e}'[:150])
+        try:
+            tc = TestChain([Report], mock_tasks={'train:stats': 7, 'eval:stats': 8})
+            if tc['report'].value != [7, 8]:
+                ctx.fail('mocks given under their full names are not the inputs of the tested task', case, {'value': tc['report'].value})
+        except Exception as e:      # noqa
+            ctx.fail('mocks given under their full names are rejected', case, f'{type(e).__name__}: {e}'[:150])
 
 
 FRAGS = ['Export', 'Task', 'List', 'Data', 'X', 'AB', 'Train', 'Model', 'Tasks', 'task', 'V2', 'Http', 'T']
